@@ -9,6 +9,11 @@
 //!                                                                                     4-byte encapsulation header)
 //!   rt  <1|2> <le|be> <ty> <val>      -> <ser result> | <de of the bytes> | <de without the recorded padding> | <de with one byte less>
 //!   cmp <1|2> <le|be> <ty> <val> <hex1> <hex2> -> <ser result> | <de of hex1> | <de of hex2>
+//!   asg <reader ty> <writer ty>       -> asg <0|1>                                                   (C39)
+//!   evo <1|2> <le|be> <writer ty> <val> <reader ty> -> asg <0|1> | <de result of the writer's bytes with the reader type>
+//!   typed <1|2> <a1-a2|a2-a1|a2-a2|m1-m2|m2-m1>  -> dynamic <ok|err E> | typed <Some(..)|None>  (derived types EvoA1.., D49)
+//!   kh <ty> <val>                     -> ok <32 hex digits: instance handle> | err <E> | PANIC          (C11, C12)
+//!   khrt <1|2> <le|be> <ty> <val>     -> <writer handle> | <handle from the decoded sample> | <handle from the decoded key-only payload>
 //!   sizeof                            -> sizes of the element types `Vec::with_capacity` is called with
 //! <ty>  ::= b | y | u8 | i8 | c8 | i16 | u16 | i32 | u32 | f32 | i64 | u64 | f64            primitives
 //!         | s                                                                            string (unbounded)
@@ -22,6 +27,7 @@
 //! worker's answer; if the worker dies on a line (allocation above the limit -> exit code 77, abort,
 //! stack overflow) the parent prints `ALLOC-LIMIT` / `ABORT` for that line and starts a new worker.
 use dust_dds::verif_hooks::{
+    KeyHolderData, KeyHolderType, get_instance_handle_from_dynamic_data, get_instance_handle_from_key_holder_data,
     deserialize_top_level_type, serialize_cdr1_be, serialize_cdr1_le, serialize_cdr2_be, serialize_cdr2_le,
 };
 use dust_dds::xtypes::{
@@ -31,8 +37,40 @@ use dust_dds::xtypes::{
         TryConstructKind, TypeDescriptor, TypeKind,
     },
     error::XTypesError,
+    type_object::CompleteTypeObject,
 };
+use dust_dds::infrastructure::type_support::DdsType;
+use dust_dds::xtypes::type_support::TypeSupport;
 use dvh::{hex, unhex};
+
+// ---- C39 / D49: the typed view of a sample written with an older / newer version of the type
+#[derive(Clone, Debug, PartialEq, DdsType)]
+#[dust_dds(extensibility = "appendable")]
+struct EvoA1 { a: u8 }
+#[derive(Clone, Debug, PartialEq, DdsType)]
+#[dust_dds(extensibility = "appendable")]
+struct EvoA2 { a: u8, b: u32 }
+#[derive(Clone, Debug, PartialEq, DdsType)]
+#[dust_dds(extensibility = "mutable")]
+struct EvoM1 { #[dust_dds(id = 0)] a: u8, #[dust_dds(id = 2)] c: u16 }
+#[derive(Clone, Debug, PartialEq, DdsType)]
+#[dust_dds(extensibility = "mutable")]
+struct EvoM2 { #[dust_dds(id = 2)] c: u16, #[dust_dds(id = 5)] d: u32, #[dust_dds(id = 0)] a: u8 }
+/// serialize `w` (XCDR1 / XCDR2 little-endian), decode with the type of `R`, build the typed sample
+trait ShowV { fn show(&self) -> String; }
+impl ShowV for EvoA1 { fn show(&self) -> String { format!("{{{}}}", self.a) } }
+impl ShowV for EvoA2 { fn show(&self) -> String { format!("{{{},{}}}", self.a, self.b) } }
+impl ShowV for EvoM1 { fn show(&self) -> String { format!("{{{},{}}}", self.a, self.c) } }
+impl ShowV for EvoM2 { fn show(&self) -> String { format!("{{{},{},{}}}", self.c, self.d, self.a) } }
+fn typed<W: TypeSupport, R: TypeSupport + ShowV>(ver: &str, w: W) -> String {
+    let d = w.create_dynamic_sample();
+    let b = match ver { "1" => serialize_cdr1_le(&d), _ => serialize_cdr2_le(&d) };
+    let b = match b { Ok(b) => b, Err(e) => return err_s(&e).to_string() };
+    match deserialize_top_level_type(R::get_type(), &b) {
+        Ok(mut dd) => match R::create_sample(&mut dd) { Some(r) => format!("dynamic ok | typed Some({})", r.show()), None => "dynamic ok | typed None".into() },
+        Err(e) => format!("dynamic {} | typed -", err_s(&e)),
+    }
+}
 use std::alloc::{GlobalAlloc, Layout, System};
 use std::io::{BufRead, BufReader, Write};
 
@@ -226,7 +264,7 @@ fn build_ty(t: &T) -> DynamicType<'static> {
         T::Struct(ext, ms) => {
             let mut b = DynamicTypeBuilderFactory::create_type(descriptor(TypeKind::STRUCTURE, *ext, None));
             for (i, m) in ms.iter().enumerate() {
-                let name: &'static str = format!("m{}", i).leak();
+                let name: &'static str = format!("m{}", m.id).leak();   // the name is a function of the id (C39)
                 b.add_member(member(name, m.id, i as u32, build_ty(&m.t), &[], Some(m))).unwrap();
             }
             b.build()
@@ -387,6 +425,20 @@ fn ty_ok(t: &T) -> bool {
         _ => true,
     }
 }
+/// member ids of the key-holder member list (same traversal as `KeyHolderType::from_dynamic_type`)
+fn flat_ids(t: &T, out: &mut Vec<u32>) {
+    if let T::Struct(_, ms) = t {
+        for m in ms {
+            if m.key { out.push(m.id) } else if matches!(m.t, T::Struct(..)) && !m.opt { flat_ids(&m.t, out) }
+        }
+    }
+}
+fn handle_s(r: Result<dust_dds::infrastructure::instance::InstanceHandle, XTypesError>) -> String {
+    match r {
+        Ok(h) => { let b: [u8; 16] = h.into(); format!("ok {}", hex(&b)) }
+        Err(e) => err_s(&e).to_string(),
+    }
+}
 fn top_ok(t: &T) -> bool { matches!(t, T::Struct(..)) && ty_ok(t) }
 
 fn step(t: &[&str]) -> String {
@@ -426,13 +478,82 @@ fn step(t: &[&str]) -> String {
                 Err(e) => format!("{} | {} | {}", e, d(h1), d(h2)),
             }
         }
+        // C39: is the reader type assignable from the writer type (complete type objects of the two dynamic types)
+        ["asg", tr, tw] => {
+            let (Some(tr), Some(tw)) = (parse_ty(tr), parse_ty(tw)) else { return "bad-op".into() };
+            if !top_ok(&tr) || !top_ok(&tw) { return "bad-op".into(); }
+            let (or, ow) = (CompleteTypeObject::from(build_ty(&tr)), CompleteTypeObject::from(build_ty(&tw)));
+            format!("asg {}", or.is_assignable_from(&ow) as u8)
+        }
+        // C39: the writer's sample decoded with the reader's type
+        ["evo", ver, end, tw, val, tr] => {
+            let (Some(tw), Some(v), Some(tr)) = (parse_ty(tw), parse_val(val), parse_ty(tr)) else { return "bad-op".into() };
+            if !top_ok(&tr) || !top_ok(&tw) { return "bad-op".into(); }
+            let (or, ow) = (CompleteTypeObject::from(build_ty(&tr)), CompleteTypeObject::from(build_ty(&tw)));
+            let a = or.is_assignable_from(&ow) as u8;
+            match ser(ver, end, &tw, &v) {
+                Ok(b) => format!("asg {} | {}", a, std::panic::catch_unwind(|| de(&tr, &b)).unwrap_or_else(|_| "PANIC".into())),
+                Err(e) => format!("asg {} | {}", a, e),
+            }
+        }
+        // C39 / D49: fixed derived types, reader-only member in the typed sample
+        ["typed", ver, pair] => match *pair {
+            "a1-a2" => typed::<EvoA1, EvoA2>(ver, EvoA1 { a: 7 }),
+            "a2-a1" => typed::<EvoA2, EvoA1>(ver, EvoA2 { a: 7, b: 9 }),
+            "a2-a2" => typed::<EvoA2, EvoA2>(ver, EvoA2 { a: 7, b: 9 }),
+            "m1-m2" => typed::<EvoM1, EvoM2>(ver, EvoM1 { a: 7, c: 5 }),
+            "m2-m1" => typed::<EvoM2, EvoM1>(ver, EvoM2 { c: 5, d: 9, a: 7 }),
+            _ => "bad-op".into(),
+        },
+        // C11 / C12: instance handle of a value (writer side computation)
+        ["kh", ty, val] | ["khx", ty, val, _] => {
+            let (Some(ty), Some(v)) = (parse_ty(ty), parse_val(val)) else { return "bad-op".into() };
+            if !top_ok(&ty) { return "bad-op".into(); }
+            let Some(d) = build_complex(&ty, &v) else { return "bad-op".into() };
+            handle_s(get_instance_handle_from_dynamic_data(&d))
+        }
+        // C11: writer handle | reader handle from the decoded sample | reader handle from the decoded key-only payload
+        // (dispose / unregister), both payloads serialized in the given representation
+        ["khrt", ver, end, ty, val] => {
+            let (Some(ty), Some(v)) = (parse_ty(ty), parse_val(val)) else { return "bad-op".into() };
+            if !top_ok(&ty) { return "bad-op".into(); }
+            let Some(d) = build_complex(&ty, &v) else { return "bad-op".into() };
+            let dt = build_ty(&ty);
+            let hw = handle_s(get_instance_handle_from_dynamic_data(&d));
+            let serx = |x: &DynamicData| match (*ver, *end) {
+                ("1", "le") => serialize_cdr1_le(x), ("1", "be") => serialize_cdr1_be(x),
+                ("2", "le") => serialize_cdr2_le(x), _ => serialize_cdr2_be(x),
+            };
+            let alive = std::panic::catch_unwind(|| match serx(&d) {
+                Err(e) => err_s(&e).to_string(),
+                Ok(b) => match deserialize_top_level_type(dt, &b) {
+                    Err(e) => err_s(&e).to_string(),
+                    Ok(x) => handle_s(get_instance_handle_from_dynamic_data(&x)),
+                },
+            }).unwrap_or_else(|_| "PANIC".into());
+            // (the key-only payload is exercised only when the flattened key member ids are distinct)
+            let mut ids = vec![]; flat_ids(&ty, &mut ids);
+            let n = ids.len(); ids.sort(); ids.dedup();
+            let disposed = if ids.len() != n { "dup-ids".to_string() } else { std::panic::catch_unwind(|| {
+                let mut ml = Vec::new();
+                let kd = match KeyHolderData::from_dynamic_data(&d, &mut ml) { Ok(k) => k, Err(e) => return err_s(&e).to_string() };
+                let b = match serx(kd.as_dynamic_data()) { Ok(b) => b, Err(e) => return err_s(&e).to_string() };
+                let mut ml2 = Vec::new();
+                let kt = match KeyHolderType::from_dynamic_type(&dt, &mut ml2) { Ok(k) => k, Err(e) => return err_s(&e).to_string() };
+                match deserialize_top_level_type(*kt.as_dynamic_type(), &b) {
+                    Err(e) => err_s(&e).to_string(),
+                    Ok(x) => handle_s(get_instance_handle_from_dynamic_data(&x)),
+                }
+            }).unwrap_or_else(|_| "PANIC".into()) };
+            format!("{} | {} | {}", hw, alive, disposed)
+        }
         ["sizeof"] => format!("char={} string={} dyn={}", std::mem::size_of::<char>(), std::mem::size_of::<String>(), std::mem::size_of::<DynamicData<'static>>()),
         _ => "bad-op".into(),
     }
 }
 
 fn worker() {
-    std::panic::set_hook(Box::new(|_| {}));
+    if std::env::var_os("XCDR_SHOW_PANIC").is_none() { std::panic::set_hook(Box::new(|_| {})); }
     LIMIT_ON.store(true, std::sync::atomic::Ordering::Relaxed);
     let stdin = std::io::stdin();
     let stdout = std::io::stdout();
